@@ -251,4 +251,597 @@ def knownSilent : List (Nat × Opt) := [(0, .collation), (1, .collation), (2, .c
 /-- known findings: options that still raise after ignore_feature: Collection.aggregate(session), Database.create_collection(array_filters), Database.create_collection(collation), Database.create_collection(let), Database.create_collection(session), Database.dereference(session), Database.drop_collection(session), Database.list_collection_names(session) -/
 def knownOptOutIneffective : List (Nat × Opt) := [(8, .session), (35, .arrayFilters), (35, .collation), (35, .let_), (35, .session), (36, .session), (37, .session), (38, .session)]
 
+/-- both options present: ⟨mid, a, b, write, a opted out, observed⟩ (b is never opted out) -/
+def optionPairs_0 : List OptPair := [
+  ⟨0, .collation, .hint, true, false, .raisesNotImplemented⟩,
+  ⟨0, .collation, .hint, true, true, .raisesNotImplemented⟩,
+  ⟨0, .hint, .collation, true, false, .raisesNotImplemented⟩,
+  ⟨1, .collation, .hint, true, false, .raisesNotImplemented⟩,
+  ⟨1, .collation, .hint, true, true, .raisesNotImplemented⟩,
+  ⟨1, .hint, .collation, true, false, .raisesNotImplemented⟩,
+  ⟨2, .collation, .arrayFilters, true, false, .raisesNotImplemented⟩,
+  ⟨2, .collation, .arrayFilters, true, true, .raisesNotImplemented⟩,
+  ⟨2, .collation, .hint, true, false, .raisesNotImplemented⟩,
+  ⟨2, .collation, .hint, true, true, .raisesNotImplemented⟩,
+  ⟨2, .arrayFilters, .collation, true, false, .raisesNotImplemented⟩,
+  ⟨2, .arrayFilters, .collation, true, true, .accepted⟩,
+  ⟨2, .arrayFilters, .hint, true, false, .raisesNotImplemented⟩,
+  ⟨2, .arrayFilters, .hint, true, true, .raisesNotImplemented⟩,
+  ⟨2, .hint, .collation, true, false, .raisesNotImplemented⟩,
+  ⟨2, .hint, .arrayFilters, true, false, .raisesNotImplemented⟩,
+  ⟨4, .session, .collation, true, false, .raisesNotImplemented⟩,
+  ⟨4, .session, .collation, true, true, .raisesNotImplemented⟩,
+  ⟨4, .session, .arrayFilters, true, false, .raisesNotImplemented⟩,
+  ⟨4, .session, .arrayFilters, true, true, .raisesNotImplemented⟩,
+  ⟨4, .session, .let_, true, false, .raisesNotImplemented⟩,
+  ⟨4, .session, .let_, true, true, .raisesNotImplemented⟩,
+  ⟨4, .session, .hint, true, false, .raisesNotImplemented⟩,
+  ⟨4, .session, .hint, true, true, .raisesNotImplemented⟩,
+  ⟨4, .collation, .session, true, false, .raisesNotImplemented⟩,
+  ⟨4, .collation, .session, true, true, .raisesNotImplemented⟩,
+  ⟨4, .collation, .arrayFilters, true, false, .raisesNotImplemented⟩,
+  ⟨4, .collation, .arrayFilters, true, true, .raisesNotImplemented⟩,
+  ⟨4, .collation, .let_, true, false, .raisesNotImplemented⟩,
+  ⟨4, .collation, .let_, true, true, .raisesNotImplemented⟩,
+  ⟨4, .collation, .hint, true, false, .raisesNotImplemented⟩,
+  ⟨4, .collation, .hint, true, true, .raisesNotImplemented⟩,
+  ⟨4, .arrayFilters, .session, true, false, .raisesNotImplemented⟩,
+  ⟨4, .arrayFilters, .session, true, true, .raisesNotImplemented⟩,
+  ⟨4, .arrayFilters, .collation, true, false, .raisesNotImplemented⟩,
+  ⟨4, .arrayFilters, .collation, true, true, .raisesNotImplemented⟩,
+  ⟨4, .arrayFilters, .let_, true, false, .raisesNotImplemented⟩,
+  ⟨4, .arrayFilters, .let_, true, true, .raisesNotImplemented⟩,
+  ⟨4, .arrayFilters, .hint, true, false, .raisesNotImplemented⟩,
+  ⟨4, .arrayFilters, .hint, true, true, .raisesNotImplemented⟩,
+  ⟨4, .let_, .session, true, false, .raisesNotImplemented⟩,
+  ⟨4, .let_, .session, true, true, .raisesNotImplemented⟩,
+  ⟨4, .let_, .collation, true, false, .raisesNotImplemented⟩,
+  ⟨4, .let_, .collation, true, true, .raisesNotImplemented⟩,
+  ⟨4, .let_, .arrayFilters, true, false, .raisesNotImplemented⟩,
+  ⟨4, .let_, .arrayFilters, true, true, .raisesNotImplemented⟩,
+  ⟨4, .let_, .hint, true, false, .raisesNotImplemented⟩,
+  ⟨4, .let_, .hint, true, true, .raisesNotImplemented⟩,
+  ⟨4, .hint, .session, true, false, .raisesNotImplemented⟩,
+  ⟨4, .hint, .collation, true, false, .raisesNotImplemented⟩,
+  ⟨4, .hint, .arrayFilters, true, false, .raisesNotImplemented⟩,
+  ⟨4, .hint, .let_, true, false, .raisesNotImplemented⟩,
+  ⟨8, .session, .collation, false, false, .raisesNotImplemented⟩,
+  ⟨8, .session, .collation, false, true, .raisesNotImplemented⟩,
+  ⟨8, .session, .arrayFilters, false, false, .raisesNotImplemented⟩,
+  ⟨8, .session, .arrayFilters, false, true, .raisesNotImplemented⟩,
+  ⟨8, .session, .let_, false, false, .raisesNotImplemented⟩,
+  ⟨8, .session, .let_, false, true, .raisesNotImplemented⟩,
+  ⟨8, .session, .hint, false, false, .raisesNotImplemented⟩,
+  ⟨8, .session, .hint, false, true, .raisesNotImplemented⟩,
+  ⟨8, .collation, .session, false, false, .raisesNotImplemented⟩,
+  ⟨8, .collation, .session, false, true, .raisesNotImplemented⟩,
+  ⟨8, .collation, .arrayFilters, false, false, .accepted⟩,
+  ⟨8, .collation, .arrayFilters, false, true, .accepted⟩,
+  ⟨8, .collation, .let_, false, false, .accepted⟩,
+  ⟨8, .collation, .let_, false, true, .accepted⟩,
+  ⟨8, .collation, .hint, false, false, .accepted⟩,
+  ⟨8, .collation, .hint, false, true, .accepted⟩,
+  ⟨8, .arrayFilters, .session, false, false, .raisesNotImplemented⟩,
+  ⟨8, .arrayFilters, .session, false, true, .raisesNotImplemented⟩,
+  ⟨8, .arrayFilters, .collation, false, false, .accepted⟩,
+  ⟨8, .arrayFilters, .collation, false, true, .accepted⟩,
+  ⟨8, .arrayFilters, .let_, false, false, .accepted⟩,
+  ⟨8, .arrayFilters, .let_, false, true, .accepted⟩,
+  ⟨8, .arrayFilters, .hint, false, false, .accepted⟩,
+  ⟨8, .arrayFilters, .hint, false, true, .accepted⟩,
+  ⟨8, .let_, .session, false, false, .raisesNotImplemented⟩,
+  ⟨8, .let_, .session, false, true, .raisesNotImplemented⟩,
+  ⟨8, .let_, .collation, false, false, .accepted⟩,
+  ⟨8, .let_, .collation, false, true, .accepted⟩,
+  ⟨8, .let_, .arrayFilters, false, false, .accepted⟩,
+  ⟨8, .let_, .arrayFilters, false, true, .accepted⟩,
+  ⟨8, .let_, .hint, false, false, .accepted⟩,
+  ⟨8, .let_, .hint, false, true, .accepted⟩,
+  ⟨8, .hint, .session, false, false, .raisesNotImplemented⟩,
+  ⟨8, .hint, .collation, false, false, .accepted⟩,
+  ⟨8, .hint, .arrayFilters, false, false, .accepted⟩,
+  ⟨8, .hint, .let_, false, false, .accepted⟩,
+  ⟨10, .session, .collation, false, false, .raisesNotImplemented⟩,
+  ⟨10, .session, .collation, false, true, .raisesNotImplemented⟩,
+  ⟨10, .session, .arrayFilters, false, false, .raisesNotImplemented⟩,
+  ⟨10, .session, .arrayFilters, false, true, .raisesOther⟩,
+  ⟨10, .session, .let_, false, false, .raisesNotImplemented⟩,
+  ⟨10, .session, .let_, false, true, .raisesOther⟩,
+  ⟨10, .session, .hint, false, false, .raisesNotImplemented⟩,
+  ⟨10, .session, .hint, false, true, .accepted⟩,
+  ⟨10, .collation, .session, false, false, .raisesNotImplemented⟩,
+  ⟨10, .collation, .session, false, true, .raisesNotImplemented⟩,
+  ⟨10, .collation, .arrayFilters, false, false, .raisesNotImplemented⟩,
+  ⟨10, .collation, .arrayFilters, false, true, .raisesOther⟩,
+  ⟨10, .collation, .let_, false, false, .raisesNotImplemented⟩,
+  ⟨10, .collation, .let_, false, true, .raisesOther⟩,
+  ⟨10, .collation, .hint, false, false, .raisesNotImplemented⟩,
+  ⟨10, .collation, .hint, false, true, .accepted⟩,
+  ⟨10, .arrayFilters, .session, false, false, .raisesNotImplemented⟩,
+  ⟨10, .arrayFilters, .session, false, true, .raisesNotImplemented⟩,
+  ⟨10, .arrayFilters, .collation, false, false, .raisesNotImplemented⟩,
+  ⟨10, .arrayFilters, .collation, false, true, .raisesNotImplemented⟩,
+  ⟨10, .arrayFilters, .let_, false, false, .raisesOther⟩,
+  ⟨10, .arrayFilters, .let_, false, true, .raisesOther⟩,
+  ⟨10, .arrayFilters, .hint, false, false, .raisesOther⟩,
+  ⟨10, .arrayFilters, .hint, false, true, .raisesOther⟩,
+  ⟨10, .let_, .session, false, false, .raisesNotImplemented⟩,
+  ⟨10, .let_, .session, false, true, .raisesNotImplemented⟩,
+  ⟨10, .let_, .collation, false, false, .raisesNotImplemented⟩,
+  ⟨10, .let_, .collation, false, true, .raisesNotImplemented⟩,
+  ⟨10, .let_, .arrayFilters, false, false, .raisesOther⟩,
+  ⟨10, .let_, .arrayFilters, false, true, .raisesOther⟩,
+  ⟨10, .let_, .hint, false, false, .raisesOther⟩,
+  ⟨10, .let_, .hint, false, true, .raisesOther⟩,
+  ⟨10, .hint, .session, false, false, .raisesNotImplemented⟩,
+  ⟨10, .hint, .collation, false, false, .raisesNotImplemented⟩,
+  ⟨10, .hint, .arrayFilters, false, false, .raisesOther⟩,
+  ⟨10, .hint, .let_, false, false, .raisesOther⟩,
+  ⟨11, .session, .collation, false, false, .raisesNotImplemented⟩,
+  ⟨11, .session, .collation, false, true, .accepted⟩,
+  ⟨11, .session, .arrayFilters, false, false, .raisesNotImplemented⟩,
+  ⟨11, .session, .arrayFilters, false, true, .accepted⟩,
+  ⟨11, .session, .let_, false, false, .raisesNotImplemented⟩,
+  ⟨11, .session, .let_, false, true, .accepted⟩,
+  ⟨11, .session, .hint, false, false, .raisesNotImplemented⟩,
+  ⟨11, .session, .hint, false, true, .accepted⟩,
+  ⟨11, .collation, .session, false, false, .raisesNotImplemented⟩,
+  ⟨11, .collation, .session, false, true, .raisesNotImplemented⟩,
+  ⟨11, .collation, .arrayFilters, false, false, .accepted⟩,
+  ⟨11, .collation, .arrayFilters, false, true, .accepted⟩,
+  ⟨11, .collation, .let_, false, false, .accepted⟩,
+  ⟨11, .collation, .let_, false, true, .accepted⟩,
+  ⟨11, .collation, .hint, false, false, .accepted⟩,
+  ⟨11, .collation, .hint, false, true, .accepted⟩,
+  ⟨11, .arrayFilters, .session, false, false, .raisesNotImplemented⟩,
+  ⟨11, .arrayFilters, .session, false, true, .raisesNotImplemented⟩,
+  ⟨11, .arrayFilters, .collation, false, false, .accepted⟩,
+  ⟨11, .arrayFilters, .collation, false, true, .accepted⟩,
+  ⟨11, .arrayFilters, .let_, false, false, .accepted⟩,
+  ⟨11, .arrayFilters, .let_, false, true, .accepted⟩,
+  ⟨11, .arrayFilters, .hint, false, false, .accepted⟩,
+  ⟨11, .arrayFilters, .hint, false, true, .accepted⟩,
+  ⟨11, .let_, .session, false, false, .raisesNotImplemented⟩,
+  ⟨11, .let_, .session, false, true, .raisesNotImplemented⟩]
+
+def optionPairs_1 : List OptPair := [
+  ⟨11, .let_, .collation, false, false, .accepted⟩,
+  ⟨11, .let_, .collation, false, true, .accepted⟩,
+  ⟨11, .let_, .arrayFilters, false, false, .accepted⟩,
+  ⟨11, .let_, .arrayFilters, false, true, .accepted⟩,
+  ⟨11, .let_, .hint, false, false, .accepted⟩,
+  ⟨11, .let_, .hint, false, true, .accepted⟩,
+  ⟨11, .hint, .session, false, false, .raisesNotImplemented⟩,
+  ⟨11, .hint, .collation, false, false, .accepted⟩,
+  ⟨11, .hint, .arrayFilters, false, false, .accepted⟩,
+  ⟨11, .hint, .let_, false, false, .accepted⟩,
+  ⟨13, .session, .collation, true, false, .raisesNotImplemented⟩,
+  ⟨13, .session, .collation, true, true, .raisesNotImplemented⟩,
+  ⟨13, .session, .hint, true, false, .raisesNotImplemented⟩,
+  ⟨13, .session, .hint, true, true, .raisesNotImplemented⟩,
+  ⟨13, .collation, .session, true, false, .raisesNotImplemented⟩,
+  ⟨13, .collation, .session, true, true, .raisesNotImplemented⟩,
+  ⟨13, .collation, .hint, true, false, .raisesNotImplemented⟩,
+  ⟨13, .collation, .hint, true, true, .raisesNotImplemented⟩,
+  ⟨13, .hint, .session, true, false, .raisesNotImplemented⟩,
+  ⟨13, .hint, .collation, true, false, .raisesNotImplemented⟩,
+  ⟨14, .session, .collation, true, false, .raisesNotImplemented⟩,
+  ⟨14, .session, .collation, true, true, .raisesNotImplemented⟩,
+  ⟨14, .session, .hint, true, false, .raisesNotImplemented⟩,
+  ⟨14, .session, .hint, true, true, .raisesNotImplemented⟩,
+  ⟨14, .collation, .session, true, false, .raisesNotImplemented⟩,
+  ⟨14, .collation, .session, true, true, .raisesNotImplemented⟩,
+  ⟨14, .collation, .hint, true, false, .raisesNotImplemented⟩,
+  ⟨14, .collation, .hint, true, true, .raisesNotImplemented⟩,
+  ⟨14, .hint, .session, true, false, .raisesNotImplemented⟩,
+  ⟨14, .hint, .collation, true, false, .raisesNotImplemented⟩,
+  ⟨19, .session, .collation, false, false, .raisesOther⟩,
+  ⟨19, .session, .collation, false, true, .raisesOther⟩,
+  ⟨19, .session, .arrayFilters, false, false, .raisesOther⟩,
+  ⟨19, .session, .arrayFilters, false, true, .raisesOther⟩,
+  ⟨19, .session, .let_, false, false, .raisesOther⟩,
+  ⟨19, .session, .let_, false, true, .raisesOther⟩,
+  ⟨19, .session, .hint, false, false, .raisesOther⟩,
+  ⟨19, .session, .hint, false, true, .raisesOther⟩,
+  ⟨19, .collation, .session, false, false, .raisesOther⟩,
+  ⟨19, .collation, .session, false, true, .raisesOther⟩,
+  ⟨19, .collation, .arrayFilters, false, false, .raisesOther⟩,
+  ⟨19, .collation, .arrayFilters, false, true, .raisesOther⟩,
+  ⟨19, .collation, .let_, false, false, .raisesOther⟩,
+  ⟨19, .collation, .let_, false, true, .raisesOther⟩,
+  ⟨19, .collation, .hint, false, false, .raisesOther⟩,
+  ⟨19, .collation, .hint, false, true, .raisesOther⟩,
+  ⟨19, .arrayFilters, .session, false, false, .raisesOther⟩,
+  ⟨19, .arrayFilters, .session, false, true, .raisesOther⟩,
+  ⟨19, .arrayFilters, .collation, false, false, .raisesOther⟩,
+  ⟨19, .arrayFilters, .collation, false, true, .raisesOther⟩,
+  ⟨19, .arrayFilters, .let_, false, false, .raisesOther⟩,
+  ⟨19, .arrayFilters, .let_, false, true, .raisesOther⟩,
+  ⟨19, .arrayFilters, .hint, false, false, .raisesOther⟩,
+  ⟨19, .arrayFilters, .hint, false, true, .raisesOther⟩,
+  ⟨19, .let_, .session, false, false, .raisesOther⟩,
+  ⟨19, .let_, .session, false, true, .raisesOther⟩,
+  ⟨19, .let_, .collation, false, false, .raisesOther⟩,
+  ⟨19, .let_, .collation, false, true, .raisesOther⟩,
+  ⟨19, .let_, .arrayFilters, false, false, .raisesOther⟩,
+  ⟨19, .let_, .arrayFilters, false, true, .raisesOther⟩,
+  ⟨19, .let_, .hint, false, false, .raisesOther⟩,
+  ⟨19, .let_, .hint, false, true, .raisesOther⟩,
+  ⟨19, .hint, .session, false, false, .raisesOther⟩,
+  ⟨19, .hint, .collation, false, false, .raisesOther⟩,
+  ⟨19, .hint, .arrayFilters, false, false, .raisesOther⟩,
+  ⟨19, .hint, .let_, false, false, .raisesOther⟩,
+  ⟨20, .session, .collation, false, false, .accepted⟩,
+  ⟨20, .session, .collation, false, true, .accepted⟩,
+  ⟨20, .session, .arrayFilters, false, false, .raisesOther⟩,
+  ⟨20, .session, .arrayFilters, false, true, .raisesOther⟩,
+  ⟨20, .session, .let_, false, false, .raisesOther⟩,
+  ⟨20, .session, .let_, false, true, .raisesOther⟩,
+  ⟨20, .session, .hint, false, false, .raisesOther⟩,
+  ⟨20, .session, .hint, false, true, .raisesOther⟩,
+  ⟨20, .collation, .session, false, false, .accepted⟩,
+  ⟨20, .collation, .session, false, true, .accepted⟩,
+  ⟨20, .collation, .arrayFilters, false, false, .raisesOther⟩,
+  ⟨20, .collation, .arrayFilters, false, true, .raisesOther⟩,
+  ⟨20, .collation, .let_, false, false, .raisesOther⟩,
+  ⟨20, .collation, .let_, false, true, .raisesOther⟩,
+  ⟨20, .collation, .hint, false, false, .raisesOther⟩,
+  ⟨20, .collation, .hint, false, true, .raisesOther⟩,
+  ⟨20, .arrayFilters, .session, false, false, .raisesOther⟩,
+  ⟨20, .arrayFilters, .session, false, true, .raisesOther⟩,
+  ⟨20, .arrayFilters, .collation, false, false, .raisesOther⟩,
+  ⟨20, .arrayFilters, .collation, false, true, .raisesOther⟩,
+  ⟨20, .arrayFilters, .let_, false, false, .raisesOther⟩,
+  ⟨20, .arrayFilters, .let_, false, true, .raisesOther⟩,
+  ⟨20, .arrayFilters, .hint, false, false, .raisesOther⟩,
+  ⟨20, .arrayFilters, .hint, false, true, .raisesOther⟩,
+  ⟨20, .let_, .session, false, false, .raisesOther⟩,
+  ⟨20, .let_, .session, false, true, .raisesOther⟩,
+  ⟨20, .let_, .collation, false, false, .raisesOther⟩,
+  ⟨20, .let_, .collation, false, true, .raisesOther⟩,
+  ⟨20, .let_, .arrayFilters, false, false, .raisesOther⟩,
+  ⟨20, .let_, .arrayFilters, false, true, .raisesOther⟩,
+  ⟨20, .let_, .hint, false, false, .raisesOther⟩,
+  ⟨20, .let_, .hint, false, true, .raisesOther⟩,
+  ⟨20, .hint, .session, false, false, .raisesOther⟩,
+  ⟨20, .hint, .collation, false, false, .raisesOther⟩,
+  ⟨20, .hint, .arrayFilters, false, false, .raisesOther⟩,
+  ⟨20, .hint, .let_, false, false, .raisesOther⟩,
+  ⟨21, .session, .collation, false, false, .accepted⟩,
+  ⟨21, .session, .collation, false, true, .accepted⟩,
+  ⟨21, .session, .arrayFilters, false, false, .raisesOther⟩,
+  ⟨21, .session, .arrayFilters, false, true, .raisesOther⟩,
+  ⟨21, .session, .let_, false, false, .raisesOther⟩,
+  ⟨21, .session, .let_, false, true, .raisesOther⟩,
+  ⟨21, .session, .hint, false, false, .raisesOther⟩,
+  ⟨21, .session, .hint, false, true, .raisesOther⟩,
+  ⟨21, .collation, .session, false, false, .accepted⟩,
+  ⟨21, .collation, .session, false, true, .accepted⟩,
+  ⟨21, .collation, .arrayFilters, false, false, .raisesOther⟩,
+  ⟨21, .collation, .arrayFilters, false, true, .raisesOther⟩,
+  ⟨21, .collation, .let_, false, false, .raisesOther⟩,
+  ⟨21, .collation, .let_, false, true, .raisesOther⟩,
+  ⟨21, .collation, .hint, false, false, .raisesOther⟩,
+  ⟨21, .collation, .hint, false, true, .raisesOther⟩,
+  ⟨21, .arrayFilters, .session, false, false, .raisesOther⟩,
+  ⟨21, .arrayFilters, .session, false, true, .raisesOther⟩,
+  ⟨21, .arrayFilters, .collation, false, false, .raisesOther⟩,
+  ⟨21, .arrayFilters, .collation, false, true, .raisesOther⟩,
+  ⟨21, .arrayFilters, .let_, false, false, .raisesOther⟩,
+  ⟨21, .arrayFilters, .let_, false, true, .raisesOther⟩,
+  ⟨21, .arrayFilters, .hint, false, false, .raisesOther⟩,
+  ⟨21, .arrayFilters, .hint, false, true, .raisesOther⟩,
+  ⟨21, .let_, .session, false, false, .raisesOther⟩,
+  ⟨21, .let_, .session, false, true, .raisesOther⟩,
+  ⟨21, .let_, .collation, false, false, .raisesOther⟩,
+  ⟨21, .let_, .collation, false, true, .raisesOther⟩,
+  ⟨21, .let_, .arrayFilters, false, false, .raisesOther⟩,
+  ⟨21, .let_, .arrayFilters, false, true, .raisesOther⟩,
+  ⟨21, .let_, .hint, false, false, .raisesOther⟩,
+  ⟨21, .let_, .hint, false, true, .raisesOther⟩,
+  ⟨21, .hint, .session, false, false, .raisesOther⟩,
+  ⟨21, .hint, .collation, false, false, .raisesOther⟩,
+  ⟨21, .hint, .arrayFilters, false, false, .raisesOther⟩,
+  ⟨21, .hint, .let_, false, false, .raisesOther⟩,
+  ⟨22, .session, .collation, true, false, .raisesNotImplemented⟩,
+  ⟨22, .session, .collation, true, true, .accepted⟩,
+  ⟨22, .session, .arrayFilters, true, false, .raisesNotImplemented⟩,
+  ⟨22, .session, .arrayFilters, true, true, .accepted⟩,
+  ⟨22, .session, .let_, true, false, .raisesNotImplemented⟩,
+  ⟨22, .session, .let_, true, true, .accepted⟩,
+  ⟨22, .session, .hint, true, false, .raisesNotImplemented⟩,
+  ⟨22, .session, .hint, true, true, .accepted⟩,
+  ⟨22, .collation, .session, true, false, .raisesNotImplemented⟩,
+  ⟨22, .collation, .session, true, true, .raisesNotImplemented⟩,
+  ⟨22, .collation, .arrayFilters, true, false, .accepted⟩,
+  ⟨22, .collation, .arrayFilters, true, true, .accepted⟩]
+
+def optionPairs_2 : List OptPair := [
+  ⟨22, .collation, .let_, true, false, .accepted⟩,
+  ⟨22, .collation, .let_, true, true, .accepted⟩,
+  ⟨22, .collation, .hint, true, false, .accepted⟩,
+  ⟨22, .collation, .hint, true, true, .accepted⟩,
+  ⟨22, .arrayFilters, .session, true, false, .raisesNotImplemented⟩,
+  ⟨22, .arrayFilters, .session, true, true, .raisesNotImplemented⟩,
+  ⟨22, .arrayFilters, .collation, true, false, .accepted⟩,
+  ⟨22, .arrayFilters, .collation, true, true, .accepted⟩,
+  ⟨22, .arrayFilters, .let_, true, false, .accepted⟩,
+  ⟨22, .arrayFilters, .let_, true, true, .accepted⟩,
+  ⟨22, .arrayFilters, .hint, true, false, .accepted⟩,
+  ⟨22, .arrayFilters, .hint, true, true, .accepted⟩,
+  ⟨22, .let_, .session, true, false, .raisesNotImplemented⟩,
+  ⟨22, .let_, .session, true, true, .raisesNotImplemented⟩,
+  ⟨22, .let_, .collation, true, false, .accepted⟩,
+  ⟨22, .let_, .collation, true, true, .accepted⟩,
+  ⟨22, .let_, .arrayFilters, true, false, .accepted⟩,
+  ⟨22, .let_, .arrayFilters, true, true, .accepted⟩,
+  ⟨22, .let_, .hint, true, false, .accepted⟩,
+  ⟨22, .let_, .hint, true, true, .accepted⟩,
+  ⟨22, .hint, .session, true, false, .raisesNotImplemented⟩,
+  ⟨22, .hint, .collation, true, false, .accepted⟩,
+  ⟨22, .hint, .arrayFilters, true, false, .accepted⟩,
+  ⟨22, .hint, .let_, true, false, .accepted⟩,
+  ⟨23, .session, .collation, true, false, .raisesNotImplemented⟩,
+  ⟨23, .session, .collation, true, true, .accepted⟩,
+  ⟨23, .session, .arrayFilters, true, false, .raisesNotImplemented⟩,
+  ⟨23, .session, .arrayFilters, true, true, .accepted⟩,
+  ⟨23, .session, .let_, true, false, .raisesNotImplemented⟩,
+  ⟨23, .session, .let_, true, true, .accepted⟩,
+  ⟨23, .session, .hint, true, false, .raisesNotImplemented⟩,
+  ⟨23, .session, .hint, true, true, .accepted⟩,
+  ⟨23, .collation, .session, true, false, .raisesNotImplemented⟩,
+  ⟨23, .collation, .session, true, true, .raisesNotImplemented⟩,
+  ⟨23, .collation, .arrayFilters, true, false, .accepted⟩,
+  ⟨23, .collation, .arrayFilters, true, true, .accepted⟩,
+  ⟨23, .collation, .let_, true, false, .accepted⟩,
+  ⟨23, .collation, .let_, true, true, .accepted⟩,
+  ⟨23, .collation, .hint, true, false, .accepted⟩,
+  ⟨23, .collation, .hint, true, true, .accepted⟩,
+  ⟨23, .arrayFilters, .session, true, false, .raisesNotImplemented⟩,
+  ⟨23, .arrayFilters, .session, true, true, .raisesNotImplemented⟩,
+  ⟨23, .arrayFilters, .collation, true, false, .accepted⟩,
+  ⟨23, .arrayFilters, .collation, true, true, .accepted⟩,
+  ⟨23, .arrayFilters, .let_, true, false, .accepted⟩,
+  ⟨23, .arrayFilters, .let_, true, true, .accepted⟩,
+  ⟨23, .arrayFilters, .hint, true, false, .accepted⟩,
+  ⟨23, .arrayFilters, .hint, true, true, .accepted⟩,
+  ⟨23, .let_, .session, true, false, .raisesNotImplemented⟩,
+  ⟨23, .let_, .session, true, true, .raisesNotImplemented⟩,
+  ⟨23, .let_, .collation, true, false, .accepted⟩,
+  ⟨23, .let_, .collation, true, true, .accepted⟩,
+  ⟨23, .let_, .arrayFilters, true, false, .accepted⟩,
+  ⟨23, .let_, .arrayFilters, true, true, .accepted⟩,
+  ⟨23, .let_, .hint, true, false, .accepted⟩,
+  ⟨23, .let_, .hint, true, true, .accepted⟩,
+  ⟨23, .hint, .session, true, false, .raisesNotImplemented⟩,
+  ⟨23, .hint, .collation, true, false, .accepted⟩,
+  ⟨23, .hint, .arrayFilters, true, false, .accepted⟩,
+  ⟨23, .hint, .let_, true, false, .accepted⟩,
+  ⟨24, .session, .collation, true, false, .raisesNotImplemented⟩,
+  ⟨24, .session, .collation, true, true, .accepted⟩,
+  ⟨24, .session, .arrayFilters, true, false, .raisesNotImplemented⟩,
+  ⟨24, .session, .arrayFilters, true, true, .accepted⟩,
+  ⟨24, .session, .let_, true, false, .raisesNotImplemented⟩,
+  ⟨24, .session, .let_, true, true, .accepted⟩,
+  ⟨24, .session, .hint, true, false, .raisesNotImplemented⟩,
+  ⟨24, .session, .hint, true, true, .accepted⟩,
+  ⟨24, .collation, .session, true, false, .raisesNotImplemented⟩,
+  ⟨24, .collation, .session, true, true, .raisesNotImplemented⟩,
+  ⟨24, .collation, .arrayFilters, true, false, .accepted⟩,
+  ⟨24, .collation, .arrayFilters, true, true, .accepted⟩,
+  ⟨24, .collation, .let_, true, false, .accepted⟩,
+  ⟨24, .collation, .let_, true, true, .accepted⟩,
+  ⟨24, .collation, .hint, true, false, .accepted⟩,
+  ⟨24, .collation, .hint, true, true, .accepted⟩,
+  ⟨24, .arrayFilters, .session, true, false, .raisesNotImplemented⟩,
+  ⟨24, .arrayFilters, .session, true, true, .raisesNotImplemented⟩,
+  ⟨24, .arrayFilters, .collation, true, false, .accepted⟩,
+  ⟨24, .arrayFilters, .collation, true, true, .accepted⟩,
+  ⟨24, .arrayFilters, .let_, true, false, .accepted⟩,
+  ⟨24, .arrayFilters, .let_, true, true, .accepted⟩,
+  ⟨24, .arrayFilters, .hint, true, false, .accepted⟩,
+  ⟨24, .arrayFilters, .hint, true, true, .accepted⟩,
+  ⟨24, .let_, .session, true, false, .raisesNotImplemented⟩,
+  ⟨24, .let_, .session, true, true, .raisesNotImplemented⟩,
+  ⟨24, .let_, .collation, true, false, .accepted⟩,
+  ⟨24, .let_, .collation, true, true, .accepted⟩,
+  ⟨24, .let_, .arrayFilters, true, false, .accepted⟩,
+  ⟨24, .let_, .arrayFilters, true, true, .accepted⟩,
+  ⟨24, .let_, .hint, true, false, .accepted⟩,
+  ⟨24, .let_, .hint, true, true, .accepted⟩,
+  ⟨24, .hint, .session, true, false, .raisesNotImplemented⟩,
+  ⟨24, .hint, .collation, true, false, .accepted⟩,
+  ⟨24, .hint, .arrayFilters, true, false, .accepted⟩,
+  ⟨24, .hint, .let_, true, false, .accepted⟩,
+  ⟨29, .session, .collation, false, false, .raisesNotImplemented⟩,
+  ⟨29, .session, .collation, false, true, .raisesOther⟩,
+  ⟨29, .session, .arrayFilters, false, false, .raisesNotImplemented⟩,
+  ⟨29, .session, .arrayFilters, false, true, .raisesOther⟩,
+  ⟨29, .session, .let_, false, false, .raisesNotImplemented⟩,
+  ⟨29, .session, .let_, false, true, .raisesOther⟩,
+  ⟨29, .session, .hint, false, false, .raisesNotImplemented⟩,
+  ⟨29, .session, .hint, false, true, .raisesOther⟩,
+  ⟨29, .collation, .session, false, false, .raisesNotImplemented⟩,
+  ⟨29, .collation, .session, false, true, .raisesNotImplemented⟩,
+  ⟨29, .collation, .arrayFilters, false, false, .raisesOther⟩,
+  ⟨29, .collation, .arrayFilters, false, true, .raisesOther⟩,
+  ⟨29, .collation, .let_, false, false, .raisesOther⟩,
+  ⟨29, .collation, .let_, false, true, .raisesOther⟩,
+  ⟨29, .collation, .hint, false, false, .raisesOther⟩,
+  ⟨29, .collation, .hint, false, true, .raisesOther⟩,
+  ⟨29, .arrayFilters, .session, false, false, .raisesNotImplemented⟩,
+  ⟨29, .arrayFilters, .session, false, true, .raisesNotImplemented⟩,
+  ⟨29, .arrayFilters, .collation, false, false, .raisesOther⟩,
+  ⟨29, .arrayFilters, .collation, false, true, .raisesOther⟩,
+  ⟨29, .arrayFilters, .let_, false, false, .raisesOther⟩,
+  ⟨29, .arrayFilters, .let_, false, true, .raisesOther⟩,
+  ⟨29, .arrayFilters, .hint, false, false, .raisesOther⟩,
+  ⟨29, .arrayFilters, .hint, false, true, .raisesOther⟩,
+  ⟨29, .let_, .session, false, false, .raisesNotImplemented⟩,
+  ⟨29, .let_, .session, false, true, .raisesNotImplemented⟩,
+  ⟨29, .let_, .collation, false, false, .raisesOther⟩,
+  ⟨29, .let_, .collation, false, true, .raisesOther⟩,
+  ⟨29, .let_, .arrayFilters, false, false, .raisesOther⟩,
+  ⟨29, .let_, .arrayFilters, false, true, .raisesOther⟩,
+  ⟨29, .let_, .hint, false, false, .raisesOther⟩,
+  ⟨29, .let_, .hint, false, true, .raisesOther⟩,
+  ⟨29, .hint, .session, false, false, .raisesNotImplemented⟩,
+  ⟨29, .hint, .collation, false, false, .raisesOther⟩,
+  ⟨29, .hint, .arrayFilters, false, false, .raisesOther⟩,
+  ⟨29, .hint, .let_, false, false, .raisesOther⟩,
+  ⟨30, .session, .hint, true, false, .raisesNotImplemented⟩,
+  ⟨30, .session, .hint, true, true, .raisesNotImplemented⟩,
+  ⟨30, .hint, .session, true, false, .raisesNotImplemented⟩,
+  ⟨31, .session, .collation, true, false, .raisesNotImplemented⟩,
+  ⟨31, .session, .collation, true, true, .raisesNotImplemented⟩,
+  ⟨31, .session, .arrayFilters, true, false, .raisesNotImplemented⟩,
+  ⟨31, .session, .arrayFilters, true, true, .raisesNotImplemented⟩,
+  ⟨31, .session, .let_, true, false, .raisesNotImplemented⟩,
+  ⟨31, .session, .let_, true, true, .raisesNotImplemented⟩,
+  ⟨31, .session, .hint, true, false, .raisesNotImplemented⟩,
+  ⟨31, .session, .hint, true, true, .raisesNotImplemented⟩,
+  ⟨31, .collation, .session, true, false, .raisesNotImplemented⟩,
+  ⟨31, .collation, .session, true, true, .raisesNotImplemented⟩,
+  ⟨31, .collation, .arrayFilters, true, false, .raisesNotImplemented⟩,
+  ⟨31, .collation, .arrayFilters, true, true, .raisesNotImplemented⟩,
+  ⟨31, .collation, .let_, true, false, .raisesNotImplemented⟩,
+  ⟨31, .collation, .let_, true, true, .raisesNotImplemented⟩,
+  ⟨31, .collation, .hint, true, false, .raisesNotImplemented⟩]
+
+def optionPairs_3 : List OptPair := [
+  ⟨31, .collation, .hint, true, true, .raisesNotImplemented⟩,
+  ⟨31, .arrayFilters, .session, true, false, .raisesNotImplemented⟩,
+  ⟨31, .arrayFilters, .session, true, true, .raisesNotImplemented⟩,
+  ⟨31, .arrayFilters, .collation, true, false, .raisesNotImplemented⟩,
+  ⟨31, .arrayFilters, .collation, true, true, .raisesNotImplemented⟩,
+  ⟨31, .arrayFilters, .let_, true, false, .raisesNotImplemented⟩,
+  ⟨31, .arrayFilters, .let_, true, true, .raisesNotImplemented⟩,
+  ⟨31, .arrayFilters, .hint, true, false, .raisesNotImplemented⟩,
+  ⟨31, .arrayFilters, .hint, true, true, .raisesNotImplemented⟩,
+  ⟨31, .let_, .session, true, false, .raisesNotImplemented⟩,
+  ⟨31, .let_, .session, true, true, .raisesNotImplemented⟩,
+  ⟨31, .let_, .collation, true, false, .raisesNotImplemented⟩,
+  ⟨31, .let_, .collation, true, true, .raisesNotImplemented⟩,
+  ⟨31, .let_, .arrayFilters, true, false, .raisesNotImplemented⟩,
+  ⟨31, .let_, .arrayFilters, true, true, .raisesNotImplemented⟩,
+  ⟨31, .let_, .hint, true, false, .raisesNotImplemented⟩,
+  ⟨31, .let_, .hint, true, true, .raisesNotImplemented⟩,
+  ⟨31, .hint, .session, true, false, .raisesNotImplemented⟩,
+  ⟨31, .hint, .collation, true, false, .raisesNotImplemented⟩,
+  ⟨31, .hint, .arrayFilters, true, false, .raisesNotImplemented⟩,
+  ⟨31, .hint, .let_, true, false, .raisesNotImplemented⟩,
+  ⟨32, .session, .collation, true, false, .raisesNotImplemented⟩,
+  ⟨32, .session, .collation, true, true, .raisesNotImplemented⟩,
+  ⟨32, .session, .arrayFilters, true, false, .raisesNotImplemented⟩,
+  ⟨32, .session, .arrayFilters, true, true, .raisesNotImplemented⟩,
+  ⟨32, .session, .let_, true, false, .raisesNotImplemented⟩,
+  ⟨32, .session, .let_, true, true, .raisesNotImplemented⟩,
+  ⟨32, .session, .hint, true, false, .raisesNotImplemented⟩,
+  ⟨32, .session, .hint, true, true, .raisesNotImplemented⟩,
+  ⟨32, .collation, .session, true, false, .raisesNotImplemented⟩,
+  ⟨32, .collation, .session, true, true, .raisesNotImplemented⟩,
+  ⟨32, .collation, .arrayFilters, true, false, .raisesNotImplemented⟩,
+  ⟨32, .collation, .arrayFilters, true, true, .raisesNotImplemented⟩,
+  ⟨32, .collation, .let_, true, false, .raisesNotImplemented⟩,
+  ⟨32, .collation, .let_, true, true, .raisesNotImplemented⟩,
+  ⟨32, .collation, .hint, true, false, .raisesNotImplemented⟩,
+  ⟨32, .collation, .hint, true, true, .raisesNotImplemented⟩,
+  ⟨32, .arrayFilters, .session, true, false, .raisesNotImplemented⟩,
+  ⟨32, .arrayFilters, .session, true, true, .raisesNotImplemented⟩,
+  ⟨32, .arrayFilters, .collation, true, false, .raisesNotImplemented⟩,
+  ⟨32, .arrayFilters, .collation, true, true, .raisesNotImplemented⟩,
+  ⟨32, .arrayFilters, .let_, true, false, .raisesNotImplemented⟩,
+  ⟨32, .arrayFilters, .let_, true, true, .raisesNotImplemented⟩,
+  ⟨32, .arrayFilters, .hint, true, false, .raisesNotImplemented⟩,
+  ⟨32, .arrayFilters, .hint, true, true, .raisesNotImplemented⟩,
+  ⟨32, .let_, .session, true, false, .raisesNotImplemented⟩,
+  ⟨32, .let_, .session, true, true, .raisesNotImplemented⟩,
+  ⟨32, .let_, .collation, true, false, .raisesNotImplemented⟩,
+  ⟨32, .let_, .collation, true, true, .raisesNotImplemented⟩,
+  ⟨32, .let_, .arrayFilters, true, false, .raisesNotImplemented⟩,
+  ⟨32, .let_, .arrayFilters, true, true, .raisesNotImplemented⟩,
+  ⟨32, .let_, .hint, true, false, .raisesNotImplemented⟩,
+  ⟨32, .let_, .hint, true, true, .raisesNotImplemented⟩,
+  ⟨32, .hint, .session, true, false, .raisesNotImplemented⟩,
+  ⟨32, .hint, .collation, true, false, .raisesNotImplemented⟩,
+  ⟨32, .hint, .arrayFilters, true, false, .raisesNotImplemented⟩,
+  ⟨32, .hint, .let_, true, false, .raisesNotImplemented⟩,
+  ⟨34, .session, .collation, false, false, .accepted⟩,
+  ⟨34, .session, .collation, false, true, .accepted⟩,
+  ⟨34, .session, .arrayFilters, false, false, .accepted⟩,
+  ⟨34, .session, .arrayFilters, false, true, .accepted⟩,
+  ⟨34, .session, .let_, false, false, .accepted⟩,
+  ⟨34, .session, .let_, false, true, .accepted⟩,
+  ⟨34, .session, .hint, false, false, .accepted⟩,
+  ⟨34, .session, .hint, false, true, .accepted⟩,
+  ⟨34, .collation, .session, false, false, .accepted⟩,
+  ⟨34, .collation, .session, false, true, .accepted⟩,
+  ⟨34, .collation, .arrayFilters, false, false, .accepted⟩,
+  ⟨34, .collation, .arrayFilters, false, true, .accepted⟩,
+  ⟨34, .collation, .let_, false, false, .accepted⟩,
+  ⟨34, .collation, .let_, false, true, .accepted⟩,
+  ⟨34, .collation, .hint, false, false, .accepted⟩,
+  ⟨34, .collation, .hint, false, true, .accepted⟩,
+  ⟨34, .arrayFilters, .session, false, false, .accepted⟩,
+  ⟨34, .arrayFilters, .session, false, true, .accepted⟩,
+  ⟨34, .arrayFilters, .collation, false, false, .accepted⟩,
+  ⟨34, .arrayFilters, .collation, false, true, .accepted⟩,
+  ⟨34, .arrayFilters, .let_, false, false, .accepted⟩,
+  ⟨34, .arrayFilters, .let_, false, true, .accepted⟩,
+  ⟨34, .arrayFilters, .hint, false, false, .accepted⟩,
+  ⟨34, .arrayFilters, .hint, false, true, .accepted⟩,
+  ⟨34, .let_, .session, false, false, .accepted⟩,
+  ⟨34, .let_, .session, false, true, .accepted⟩,
+  ⟨34, .let_, .collation, false, false, .accepted⟩,
+  ⟨34, .let_, .collation, false, true, .accepted⟩,
+  ⟨34, .let_, .arrayFilters, false, false, .accepted⟩,
+  ⟨34, .let_, .arrayFilters, false, true, .accepted⟩,
+  ⟨34, .let_, .hint, false, false, .accepted⟩,
+  ⟨34, .let_, .hint, false, true, .accepted⟩,
+  ⟨34, .hint, .session, false, false, .accepted⟩,
+  ⟨34, .hint, .collation, false, false, .accepted⟩,
+  ⟨34, .hint, .arrayFilters, false, false, .accepted⟩,
+  ⟨34, .hint, .let_, false, false, .accepted⟩,
+  ⟨35, .session, .collation, false, false, .raisesNotImplemented⟩,
+  ⟨35, .session, .collation, false, true, .raisesNotImplemented⟩,
+  ⟨35, .session, .arrayFilters, false, false, .raisesNotImplemented⟩,
+  ⟨35, .session, .arrayFilters, false, true, .raisesNotImplemented⟩,
+  ⟨35, .session, .let_, false, false, .raisesNotImplemented⟩,
+  ⟨35, .session, .let_, false, true, .raisesNotImplemented⟩,
+  ⟨35, .session, .hint, false, false, .raisesNotImplemented⟩,
+  ⟨35, .session, .hint, false, true, .raisesNotImplemented⟩,
+  ⟨35, .collation, .session, false, false, .raisesNotImplemented⟩,
+  ⟨35, .collation, .session, false, true, .raisesNotImplemented⟩,
+  ⟨35, .collation, .arrayFilters, false, false, .raisesNotImplemented⟩,
+  ⟨35, .collation, .arrayFilters, false, true, .raisesNotImplemented⟩,
+  ⟨35, .collation, .let_, false, false, .raisesNotImplemented⟩,
+  ⟨35, .collation, .let_, false, true, .raisesNotImplemented⟩,
+  ⟨35, .collation, .hint, false, false, .raisesNotImplemented⟩,
+  ⟨35, .collation, .hint, false, true, .raisesNotImplemented⟩,
+  ⟨35, .arrayFilters, .session, false, false, .raisesNotImplemented⟩,
+  ⟨35, .arrayFilters, .session, false, true, .raisesNotImplemented⟩,
+  ⟨35, .arrayFilters, .collation, false, false, .raisesNotImplemented⟩,
+  ⟨35, .arrayFilters, .collation, false, true, .raisesNotImplemented⟩,
+  ⟨35, .arrayFilters, .let_, false, false, .raisesNotImplemented⟩,
+  ⟨35, .arrayFilters, .let_, false, true, .raisesNotImplemented⟩,
+  ⟨35, .arrayFilters, .hint, false, false, .raisesNotImplemented⟩,
+  ⟨35, .arrayFilters, .hint, false, true, .raisesNotImplemented⟩,
+  ⟨35, .let_, .session, false, false, .raisesNotImplemented⟩,
+  ⟨35, .let_, .session, false, true, .raisesNotImplemented⟩,
+  ⟨35, .let_, .collation, false, false, .raisesNotImplemented⟩,
+  ⟨35, .let_, .collation, false, true, .raisesNotImplemented⟩,
+  ⟨35, .let_, .arrayFilters, false, false, .raisesNotImplemented⟩,
+  ⟨35, .let_, .arrayFilters, false, true, .raisesNotImplemented⟩,
+  ⟨35, .let_, .hint, false, false, .raisesNotImplemented⟩,
+  ⟨35, .let_, .hint, false, true, .raisesNotImplemented⟩,
+  ⟨35, .hint, .session, false, false, .raisesNotImplemented⟩,
+  ⟨35, .hint, .collation, false, false, .raisesNotImplemented⟩,
+  ⟨35, .hint, .arrayFilters, false, false, .raisesNotImplemented⟩,
+  ⟨35, .hint, .let_, false, false, .raisesNotImplemented⟩]
+
+def optionPairChunks : List (List OptPair) := [optionPairs_0, optionPairs_1, optionPairs_2, optionPairs_3]
+
+/-- 579 pair probes -/
+def optionPairs : List OptPair := optionPairChunks.flatten
+
 end Generated
